@@ -140,6 +140,41 @@ def check_rules(ck, det, cfg, xs, out):
     return True
 
 
+def check_rules_ops(ck, det, cfg, ops, out):
+    """as check_rules, for a history with resets: the published rule restarts at every reset"""
+    seg, start = [], 0
+    for i, o in enumerate(list(ops) + ["R"]):
+        if o != "R":
+            seg.append(o)
+            continue
+        spec = SPECS[det.name](cfg, seg)
+        for t, sp in enumerate(spec):
+            if sp is None:
+                ck.near_ties += 1
+                return True
+            if code(out[start + t]) != sp:
+                ck.violation(
+                    dict(clause="decision-rule", detector=det.name, after_reset=start > 0),
+                    dict(what="verdict differs from the published non-incremental rule (history with resets; the rule restarts at each reset)", detector=det.name, config=cfg, ops=ops[: start + t + 1], step=start + t, impl=code(out[start + t]), spec=sp),
+                )
+                return False
+        if i < len(ops) and (out[i][0] or out[i][1]):
+            ck.violation(dict(clause="decision-rule", detector=det.name, after_reset=True), dict(what="flags set right after reset()", detector=det.name, config=cfg, ops=ops[: i + 1]))
+            return False
+        seg, start = [], i + 1
+    return True
+
+
+def concept_segment(rng):
+    k = rng.choice(["quiet-degrade", "quiet-degrade", "bern", "gen"])
+    if k == "quiet-degrade":
+        return [0] * rng.randrange(5, 160) + [1 if rng.random() < rng.choice([0.5, 0.8, 1.0]) else 0 for _ in range(rng.randrange(10, 60))]
+    if k == "bern":
+        p = rng.choice([0.02, 0.1, 0.3])
+        return [int(rng.random() < p) for _ in range(rng.randrange(20, 200))]
+    return gen_stream01(rng, rng.choice([30, 100]))
+
+
 # ------------------------------------------------------------------ RDDM clauses
 
 
@@ -195,7 +230,7 @@ def run(ck: Check):
         f"exhaustive: all 2^{L} 0/1 streams of length {L} for DDM / ECDD-WT / EDDM (2 small-warm-up configurations each) compared step by step with a Python transcription "
         "of the non-incremental published rule (batch mean, batch std of error distances, Ross polynomial typed from the paper); random two-regime streams to length 600 "
         "with configurations over a grid of levels; numerically tied comparisons (relative margin <= 1e-9) end the comparison of that stream and are counted; "
-        "RDDM: verdicts vs DDM until the first event, suffix-mean invariant at every step; non-trivial = the stream produces a warning or drift"
+        "histories of 2-4 concepts (quiet-then-degrading, Bernoulli, regime shifts) separated by reset(), the rule restarting at each reset, small ECDD lambda_ over-represented; RDDM: verdicts vs DDM until the first event, suffix-mean invariant at every step; non-trivial = the stream produces a warning or drift"
     )
     cases, impl = [], []
     for nm in ("DDM", "ECDDWT", "EDDM"):
@@ -225,6 +260,28 @@ def run(ck: Check):
             ck.case(dict(detector=nm, config=cfg, n=n, head=xs[:12]), nontrivial=any(o[0] or o[1] for o in out), key=repr((nm, cfg, xs)))
             if check_rules(ck, det, cfg, xs, out) and n <= 300:
                 cases.append((det, cfg, xs, None))
+                impl.append(out)
+        # several concepts separated by reset() (what a user does on drift): the rule restarts at each reset
+        for _ in range(40 if not thorough else 300):
+            cfg = det.gen_cfg(rng)
+            if nm == "ECDDWT" and rng.random() < 0.6:
+                cfg["lambda_"] = rng.choice([0.01, 0.02, 0.05])
+                cfg["min_num_instances"] = rng.choice([1, 5, 30])
+            if nm == "EDDM":
+                cfg["min_num_misclassified_instances"] = rng.choice([1, 3, 10, 30])
+            ops = []
+            for j in range(rng.choice([2, 3, 4])):
+                if j:
+                    ops.append("R")
+                ops += concept_segment(rng)
+            out, exc, _ = run_impl(det, cfg, ops)
+            if exc is not None:
+                ck.violation(dict(clause="raises", detector=nm), dict(detector=nm, config=cfg, ops=ops[: len(out) + 1], error=repr(exc)))
+                continue
+            ck.case(dict(detector=nm, config=cfg, n=len(ops), kind="concepts-with-resets", head=ops[:12]), nontrivial=any(o[0] or o[1] for o in out), key=repr((nm, cfg, ops)))
+            ck.count("reset_histories")
+            if check_rules_ops(ck, det, cfg, ops, out) and len(ops) <= 300:
+                cases.append((det, cfg, ops, None))
                 impl.append(out)
     rd = BY_NAME["RDDM"]
     for _ in range(150 if not thorough else 1500):
